@@ -201,8 +201,8 @@ MUTANTS = [
     Mutant('neutral-binding-guard-flipped', FILE, "        if len(free_symbols) == len(indices):", "        if not len(indices) != len(free_symbols):", expect=None),
     Mutant('inverse-map-through-selector-map', 'loki/ir/nodes/internal_nodes.py', "        return CaseInsensitiveDict((v, k) for k, v in self.associations)",
            "        return CaseInsensitiveDict((v, k) for k, v in self.association_map.items())", expect=('R5', 'inverse_map')),
-    Mutant('call-skips-kwargs', FILE, "        kwarguments = tuple((k, self.visit(v, **kwargs)) for k, v in o.kwarguments)\n        return o._rebuild(name=name, arguments=arguments, kwarguments=kwarguments)",
-           "        return o._rebuild(name=name, arguments=arguments)", expect=('R1', 'visit_CallStatement:kwarguments'), quick=True),
+    Mutant('call-skips-kwargs', FILE, "        kwarguments = tuple((k, self.visit(v, **kwargs)) for k, v in o.kwarguments)\n        chevron = self.visit(o.chevron, **kwargs)\n        return o._rebuild(name=name, arguments=arguments, kwarguments=kwarguments, chevron=chevron)",
+           "        chevron = self.visit(o.chevron, **kwargs)\n        return o._rebuild(name=name, arguments=arguments, chevron=chevron)", expect=('R1', 'visit_CallStatement:kwarguments'), quick=True),
     Mutant('call-skips-name', FILE, "        name = self.visit(o.name, **kwargs)\n        arguments = self.visit(o.arguments, **kwargs)", "        name = o.name\n        arguments = self.visit(o.arguments, **kwargs)",
            expect=('R1', 'visit_CallStatement:name')),
     Mutant('mapper-drops-procedure-symbols', FILE, "    map_procedure_symbol = map_scalar\n", "", expect=('R2', 'ProcedureSymbol')),
